@@ -276,6 +276,10 @@ func folRunOne(si int, sc *folScenario) ([]folMismatch, map[string]int, error) {
 				}
 			}
 		}()
+		if follower == nil {
+			close(done)
+			return nil
+		}
 		err := follower.Stop()
 		close(done)
 		if remove {
@@ -550,8 +554,16 @@ func folRunOne(si int, sc *folScenario) ([]folMismatch, map[string]int, error) {
 				}
 				armGate()
 			}
-			follower, err = t38.Start(t38.Options{Dir: dir, Port: fport, Hook: fhook})
+			// (the port of the stopped process may take a moment to be free again)
+			for try := 0; ; try++ {
+				follower, err = t38.Start(t38.Options{Dir: dir, Port: fport, Hook: fhook})
+				if err == nil || try >= 20 {
+					break
+				}
+				time.Sleep(250 * time.Millisecond)
+			}
 			if err != nil {
+				os.RemoveAll(dir)
 				return nil, nil, fmt.Errorf("follower restart: %v", err)
 			}
 			fc, err = follower.Dial()
